@@ -88,6 +88,10 @@ structure WRes (σ β : Type) where
   st : WState
   cs : σ
   evs : List Ev
+  /-- traceback entries *below* `wrapper`'s own frame on the exception that leaves it: those of the failing call
+      for a re-raised exception (`raise` keeps the traceback, `wrapper`'s own entry stays at the call line);
+      none for a returned value and for `_ParseActionIndexError` (created here, `.with_traceback(None)`) -/
+  fr : List Frame
 
 /-- the `while 1:` loop of `wrapper` (core.py:287-315), entered with `found_arity == False`.
     `n` = number of arguments `wrapper` was called with; `args[limit:]` has `n - limit` elements
@@ -97,16 +101,16 @@ def probeLoop {σ β} (cfg : Cfg) (f : Callable σ β) (n : Nat) (limit : Nat) (
   match callFn f s (n - limit) with
   | (.ret v, s', ev) =>
       -- ret = func(*args[limit:]); found_arity = True; return ret           core.py:289-291
-      ⟨.ret v, ⟨true, limit⟩, s', evs ++ [ev]⟩
+      ⟨.ret v, ⟨true, limit⟩, s', evs ++ [ev], []⟩
   | (.raise .typeError fr, s', ev) =>
       -- except TypeError: (found_arity is False here)                          core.py:292-310
       if isArityError cfg fr && decide (limit < cfg.maxLimit) then
         probeLoop cfg f n (limit + 1) s' (evs ++ [ev])
-      else ⟨.raise .typeError, ⟨false, limit⟩, s', evs ++ [ev]⟩
+      else ⟨.raise .typeError, ⟨false, limit⟩, s', evs ++ [ev], fr⟩
   | (.raise .indexError _, s', ev) =>
       -- except IndexError as ie: raise _ParseActionIndexError(...)            core.py:311-315
-      ⟨.wrappedIndex, ⟨false, limit⟩, s', evs ++ [ev]⟩
-  | (.raise e _, s', ev) => ⟨.raise e, ⟨false, limit⟩, s', evs ++ [ev]⟩
+      ⟨.wrappedIndex, ⟨false, limit⟩, s', evs ++ [ev], []⟩
+  | (.raise e fr, s', ev) => ⟨.raise e, ⟨false, limit⟩, s', evs ++ [ev], fr⟩
 termination_by cfg.maxLimit - limit
 decreasing_by simp_all; omega
 
@@ -116,9 +120,9 @@ def wrapper {σ β} (cfg : Cfg) (f : Callable σ β) (st : WState) (s : σ) (n :
     -- if found_arity: try: return func(*args[limit:])
     --                 except IndexError as ie: raise _ParseActionIndexError(...)        core.py:279-287
     match callFn f s (n - st.limit) with
-    | (.ret v, s', ev) => ⟨.ret v, st, s', [ev]⟩
-    | (.raise .indexError _, s', ev) => ⟨.wrappedIndex, st, s', [ev]⟩
-    | (.raise e _, s', ev) => ⟨.raise e, st, s', [ev]⟩
+    | (.ret v, s', ev) => ⟨.ret v, st, s', [ev], []⟩
+    | (.raise .indexError _, s', ev) => ⟨.wrappedIndex, st, s', [ev], []⟩
+    | (.raise e fr, s', ev) => ⟨.raise e, st, s', [ev], fr⟩
   else probeLoop cfg f n st.limit s []
 
 /-! ### the caller: action loop of `_parseNoCache`, conditions, `parse_string` -/
@@ -193,5 +197,52 @@ def runActions {σ} (cfg : Cfg) (n : Nat) :
           let (o, sts, evs) := runActions cfg n rest t
           (o, (r.st, r.cs) :: sts, r.evs :: evs)
       | o => (o, (r.st, r.cs) :: rest.map (fun x => (x.2.1, x.2.2)), [r.evs])
+
+/-! ### nested wrappers: an action whose body runs another wrapped action
+
+  * the body calls `inner_expr.parse_string(...)` and `inner_expr` carries a parse action / condition;
+  * `trace_parse_action(g)`  (core.py: `z(*paArgs)` calls `f = _trim_arity(g)`);
+  * `condition_as_parse_action(g)` given to `set_parse_action` (`pa(s, l, t)` calls `fn = _trim_arity(g)`);
+  * `OnlyOnce(g)` (actions.py: `__call__(self, s, l, t)` calls `self.callable = _trim_arity(g)`).
+
+  An exception leaving the *inner* wrapper reaches the outer wrapper with the traceback
+  `outer wrapper @ call line, body frame, glue frames …, inner wrapper @ call line, frames below it`.
+  When the inner callable does not bind for any argument count the TypeError is raised *at the inner wrapper's
+  call line*: the innermost traceback entry then equals `pa_call_line_synth` although the error has nothing to do
+  with the outer action's arity — the reason why `isArityError` must look at the second entry only. -/
+
+/-- the outer callable, described by what its body does around the nested call -/
+structure Nest (τ γ β : Type) where
+  accepts : Nat → Bool               -- the outer callable's own signature
+  bodyFrame : Frame                  -- the frame of its body (positioned at the nested call)
+  glue : List Frame                  -- frames between the body and the inner wrapper (parse_string, _parseNoCache, helpers)
+  inner : Callable τ γ               -- the callable behind the inner `_trim_arity` wrapper
+  /-- called with `k` arguments the body calls the inner wrapper with `innerArgs k` arguments; `none`: it raises
+      `early k` in its own frame before getting there (`s, l, t = paArgs[-3:]` in `z`) -/
+  innerArgs : Nat → Option Nat
+  early : Nat → Exc
+  /-- what the body does once the nested call has returned `v`: return something or raise in its own frame -/
+  after : γ → β ⊕ Exc
+
+/-- state of the outer callable: the inner wrapper's closure variables, the inner callable's state and the log of
+    what happened at the inner wrapper (one list per invocation of it) -/
+abbrev NState (τ : Type) := WState × τ × List (List Ev)
+
+/-- the outer callable.  A `_ParseActionIndexError` in flight is treated as the `IndexError` it carries (the outer
+    wrapper lets it pass, `parse_string` unwraps it: same class at the top either way). -/
+def Nest.toCallable {τ γ β} (cfg : Cfg) (N : Nest τ γ β) : Callable (NState τ) β :=
+  ⟨N.accepts, fun s k =>
+    match N.innerArgs k with
+    | none => (.raise (N.early k) [N.bodyFrame], s)
+    | some m =>
+      let r := wrapper cfg N.inner s.1 s.2.1 m
+      let s' : NState τ := (r.st, r.cs, s.2.2 ++ [r.evs])
+      match r.out with
+      | .ret v =>
+          (match N.after v with
+           | .inl b => .ret b
+           | .inr e => .raise e [N.bodyFrame], s')
+      | .raise e => (.raise e (N.bodyFrame :: (N.glue ++ cfg.callSite :: r.fr)), s')
+      | .wrappedIndex => (.raise .indexError (N.bodyFrame :: N.glue), s')⟩
 
 end PP.TrimArity
